@@ -1185,3 +1185,63 @@ def o7d(h):
     _o7_meta(h)
     h.bounds(SHIFT_BOUNDS.replace('>= 1e-9', 'in (0, 1e-9]'))
     _o7_shifted(h, 'aI_plus_shear_xy', E_PLANE['xy'], [(1.0, 1.0), (-1.0, -1.0)], qrange='tiny', cap=120)
+
+
+# ------------------------------------------------------------------------------------------------ named locals of the real source
+class NamedLocals(dict):
+    """ctx.hooks object that lets an obligation READ or REPLACE (cut) a named local variable of the traced function: every top-level
+    equation of the jaxpr carries the source line it came from (jax source_info); the last equation of the first line
+    `name = ...` of the function's source produces that local. Regenerated on every run from the source under VERIF_REPO; a name
+    that cannot be located raises (harness error), it is never silently skipped."""
+
+    def __init__(self, cj, fn_real, cut=None, record=()):
+        super().__init__()
+        from jax._src import source_info_util as siu
+        import inspect
+        import re
+        src_file = inspect.getsourcefile(fn_real)
+        lines, first = inspect.getsourcelines(fn_real)
+        self.cut, self.values = dict(cut or {}), {}
+        want = set(self.cut) | set(record)
+        line_of = {}
+        for k, text in enumerate(lines):
+            m = re.match(r'\s*([A-Za-z_][A-Za-z_0-9]*)\s*=[^=]', text)
+            if m and m.group(1) in want and m.group(1) not in line_of:
+                line_of[m.group(1)] = first + k
+        missing = want - set(line_of)
+        if missing:
+            raise jx.JXError('named locals not found in the source of %s: %s' % (fn_real.__name__, sorted(missing)))
+        last = {}
+        for e in cj.jaxpr.eqns:
+            fr = siu.user_frame(e.source_info)
+            if fr is not None and fr.file_name == src_file:
+                last[fr.start_line] = e
+        self.target = {}
+        for nm, ln in line_of.items():
+            if ln not in last:
+                raise jx.JXError('no equation of the jaxpr maps to the line of local %s (line %d)' % (nm, ln))
+            self.target[id(last[ln])] = nm
+        self.busy = False
+
+    def __contains__(self, p):
+        return not self.busy
+
+    def __getitem__(self, p):
+        return self.hook
+
+    def hook(self, ctx, eqn, iv):
+        nm = self.target.get(id(eqn))
+        if nm is None:
+            return NotImplemented
+        self.busy = True
+        try:
+            out = jx.apply(ctx, eqn, iv)
+        finally:
+            self.busy = False
+        multi = eqn.primitive.multiple_results
+        val = out[0] if multi else out
+        if nm in self.cut:
+            val = jx.lift(self.cut[nm](val))
+            out = [val] if multi else val
+        self.values[nm] = val
+        return out
